@@ -13,12 +13,20 @@ LEVELS = {
     'C01': 'proof',
     'C15': 'proof',
     'C17': 'proof',
+    'C18': 'proof',
 }
 EXPLAIN = {
     'C07': 'Mixed: deductive (all real values at bounded sizes) for aligned_source/alignment_error/rejection on every alignment class, translation and affine recovery + optimality certificates, 2-D rotation orthogonality / built-from-svd / never-a-reflection, PWA vertex, per-triangle affine and edge-continuity clauses; bounded run-time contracts (seeded, never counted as proved) for 3-D rotations, similarity and uniform-scale recovery/size/optimality against an independent Kabsch reference. coverage.obligations/discharged count the deductive part, coverage.bounded_cases the stand-ins.',
 }
 NOT_CLAIMED = {}
 CLAIMS = {
+    'C18': dict(
+        engine='symnp (E2)',
+        design_ref='DESIGN.md §6 C18',
+        technique='contract-based deductive verification: an uninterpreted pure feature through the real ndfeature/imgfeature/winitfeature decorators; the normalisers over symbolic pixel values (sqrt-aware normal form, forking over the zero-scale test); concrete features by a bounded run-time contract',
+        text='Wrappers: for any pure feature (same size, size changing, with sampling centres) on Image/MaskedImage with and without landmarks: array call == image call, kind kept, landmarks/mask unchanged and owned (same size) or rescaled / resized / sampled (new size), input untouched. Normalisers (std, norm, var; both modes; arrays, Image, MaskedImage; 1-2 channels): result = (x-mean)/scale, zero mean, unit std/norm, idempotent, zero scale refused or skipped and finite - for all pixel values. gradient/Gaussian/IGO/ES/DAISY/no_op and a composition: purity and attachment, bounded.',
+        note='2x2 pixel arrays for the normalisers, 4x5 for the wrappers (values universal); inner numerics of the concrete features are external and not claimed.',
+    ),
     'C17': dict(
         engine='symnp (E2)',
         design_ref='DESIGN.md §6 C17',
